@@ -11,6 +11,7 @@
 //   call <op fields>   ret <op> -> true|false|()|<id>|null|[id,id,...]   exc <op>
 //   pcl K   (predicate invoked on object K; also a scheduling point)      uth   (that invocation throws)
 //   rel K   (the caller drops one reference to K)                         pdt K (payload destructor of K)
+//   mac <objectMap|typeMap> r|w   (tap build only: plain access to one of the two std::map objects of the holder)
 #include "gmlc/concurrency/SearchableObjectHolder.hpp"
 
 #include "vclient.hpp"
@@ -126,6 +127,12 @@ void run_op(std::unique_ptr<Holder>& H, Holder* h, const std::string& text, Call
     if (op == "dtor") {
         verif::emit("call dtor");
         H.reset();
+#if defined(__SANITIZE_THREAD__)
+        // the holder's memory is free again: stop tapping it before anything else can be allocated there
+        verif::tap_clear();
+        verif::unreg_range(&h->objectMap);
+        verif::unreg_range(&h->typeMap);
+#endif
         verif::emit("ret dtor");
         return;
     }
@@ -181,6 +188,26 @@ void run_op(std::unique_ptr<Holder>& H, Holder* h, const std::string& text, Call
     }
 }
 
+// the tap prints `pld|pst <map>+<offset> <size> <value>`; offsets and values (node addresses) are of no interest
+// and not reproducible: keep `mac <map> r|w`
+void normalise(verif::Result& r)
+{
+    for (auto& l : r.trace) {
+        auto sp = l.find(' ');
+        if (sp == std::string::npos) {
+            continue;
+        }
+        bool ld = l.compare(sp + 1, 4, "pld ") == 0;
+        bool st = l.compare(sp + 1, 4, "pst ") == 0;
+        if (!ld && !st) {
+            continue;
+        }
+        auto plus = l.find('+', sp + 5);
+        auto end = std::min(plus, l.find(' ', sp + 5));
+        l = l.substr(0, sp) + " mac " + l.substr(sp + 5, end - (sp + 5)) + (ld ? " r" : " w");
+    }
+}
+
 // ---- crash reporting: a sanitizer abort / signal dumps the run in progress as a failing run ---------
 char g_report[400] = "sanitizer abort (details on stderr)";
 void crash_dump(const char* why)
@@ -194,6 +221,7 @@ void crash_dump(const char* why)
     r.deadlock = false;
     r.steplimit = false;
     r.failures.push_back(std::string("crash: ") + why);
+    normalise(r);
     if (cur().sc != nullptr) {
         dump(stdout, cur().seed, cur().strat, *cur().sc, r);
     }
@@ -240,6 +268,14 @@ verif::Result exec(const Script& sc, const verif::Config& cfg)
         std::unique_ptr<Holder> H = std::make_unique<Holder>();
         Holder* h = H.get();
         verif::reg_name(&h->mapLock, "mapLock");
+#if defined(__SANITIZE_THREAD__)
+        // plain-access tap on the two std::map objects inside the holder (their tree headers: root, leftmost,
+        // rightmost, node count): every operation on a map reads or writes them
+        verif::reg_range(&h->objectMap, sizeof h->objectMap, "objectMap");
+        verif::reg_range(&h->typeMap, sizeof h->typeMap, "typeMap");
+        verif::tap_add(&h->objectMap, sizeof h->objectMap);
+        verif::tap_add(&h->typeMap, sizeof h->typeMap);
+#endif
         Caller mainc;
         if (cfgp.size() > 1 && !cfgp[1].empty()) {
             for (auto& op : split(cfgp[1], '+')) {
@@ -263,7 +299,9 @@ verif::Result exec(const Script& sc, const verif::Config& cfg)
             run_op(H, h, "dtor", mainc);
         }
     }
-    return verif::end();
+    verif::Result r = verif::end();
+    normalise(r);
+    return r;
 }
 
 // ---- generators ------------------------------------------------------------------------------------
